@@ -18,6 +18,6 @@ cp /tmp/_patch.diff /verif/seeded/$NAME/patch.diff; cp demo.py /verif/seeded/$NA
 cd /verif
 git -C /repo apply /verif/seeded/$NAME/patch.diff || { echo "patch does not apply to /repo"; exit 2; }
 for P in $PID "$@"; do
-  VERIF_NO_FINGERPRINT_ESCALATION=1 VERIF_EVIDENCE_DIR=/tmp/_seeded_evidence ./check $P > /tmp/_check_$P.log 2>&1; echo "check $P exit $? : $(grep -E 'VIOLATION|KNOWN' /tmp/_check_$P.log | head -3)"
+  VERIF_NO_FINGERPRINT_ESCALATION=1 VERIF_EVIDENCE_DIR=/tmp/_seeded_evidence VERIF_REPLAY_DIR=/tmp/_seeded_replays ./check $P > /tmp/_check_$P.log 2>&1; echo "check $P exit $? : $(grep -E 'VIOLATION|KNOWN' /tmp/_check_$P.log | head -3)"
 done
 git -C /repo checkout -- . ; git -C /repo status --short | head -3
